@@ -147,3 +147,17 @@ def register_docstring_shapes(reg):
     reg.shapes['Module'].fields.update({'_docformat': 'Opt[Str]'})
     reg.shapes['Documentable'].fields.update({'parsed_docstring': 'RefN[ParsedDocstring]', 'parsed_summary': 'RefN[ParsedDocstring]',
                                               })
+
+
+def register_scheduler_shapes(reg):
+    reg.shapes['System'].fields.update({'unprocessed_modules': 'Seq[Ref[Module]]', 'processing_modules': 'Seq[Str]', 'module_count': 'Int',
+                                        'defaultBuilder': 'Obj[CallableBuilderFactory]', 'allobjects': 'Map[Str,Ref[Documentable]]'})
+    reg.shapes['Module'].fields.update({'_py_string': 'Opt[Str]', '_is_c_module': 'Bool', '_py_mod': 'Obj[PyMod]', 'all': 'Opt[Seq[Str]]',
+                                        '_docformat': 'Opt[Str]'})
+    reg.shapes['ASTBuilder'].fields.update({'ast_cache': 'Map[Obj[Path],RefN[AstModule]]'})
+    reg.shape('AstModule', {})
+    reg.shape('AST', {'lineno': 'Int'})
+    reg.shape('expr', {'elts': 'Seq[Ref[expr]]'}, bases=('AST',))
+    reg.shape('List', {}, bases=('expr',))
+    reg.shape('Tuple', {}, bases=('expr',))
+    reg.shape('Assign', {'value': 'Ref[expr]'}, bases=('AST',))
